@@ -670,6 +670,11 @@ def translate(rep, ex: Explorer):
         for fp, fm in cases:
             env = {"FP": fp, "FM": fm}
             hit = [e for e in gd.each if e[2] == IDX and _eval_fix_guard(e[3], e[1], env)]
+            # (the pair as a record of two fields - a NamedTuple - reads as the tuple of its fields)
+            for j_, e in enumerate(hit):
+                ro = p.state.heap.get(e[5].oid) if isinstance(e[5], Ref) else None
+                if isinstance(ro, HObj) and len(ro.attrs) == 2:
+                    hit[j_] = e[:5] + (TupleV(tuple(ro.attrs.values())),)
             case = f"{mode}; index {'fixed+' if fp else 'free+'}/{'fixed-' if fm else 'free-'}"
             if len(hit) != 1 or not (isinstance(hit[0][5], TupleV) and len(hit[0][5].items) == 2) or not (isinstance(hit[0][4], ElemV) and hit[0][4].var == hit[0][1]):
                 rep.violation("REV.relation", site, f"parameters ({case})", "one (gamma+, gamma-) pair per index of the compilation, stored under that index", extracted=f"{len(hit)} entries", required="1", function=site)
